@@ -981,6 +981,7 @@ func runHistory(r *vh.Run, focus string, i int) {
 // starvation: a store-wide pass over healthy repositories with garbage, an empty one, an already removed one and one
 // whose index.json does not parse must collect every healthy repository, whatever the visiting order.
 func starvation(r *vh.Run, i int) {
+	tBegin := time.Now()
 	rng := r.Rand(900_000 + i)
 	kind := []vh.StoreKind{vh.Dir, vh.Mem}[i%2]
 	root := ""
@@ -1076,13 +1077,16 @@ func starvation(r *vh.Run, i int) {
 	r.Distinct("damage_kinds", damage)
 	// the pass is given the tick times as the ticker would: the previous tick just before the repositories were written,
 	// the current one anything from a moment to a long interval later
+	// (the previous tick is taken from a clock reading made before the first repository was written: on a loaded
+	// machine writing them can take longer than any fixed allowance)
 	now := time.Now()
+	prevTick := tBegin.Add(-time.Second)
 	cur := now.Add([]time.Duration{0, time.Second, 15 * time.Minute, 2 * time.Hour}[rng.Intn(4)])
-	wit["tick_interval"] = cur.Sub(now.Add(-time.Second)).String()
+	wit["tick_interval"] = cur.Sub(prevTick).String()
 	var err error
 	panicked := func() (p any) {
 		defer func() { p = recover() }()
-		err = srv.VerifGCPass(cur, now.Add(-time.Second))
+		err = srv.VerifGCPass(cur, prevTick)
 		return nil
 	}()
 	r.Count("starvation_trials", 1)
